@@ -452,7 +452,12 @@ def splitM (env : Env) (vals : List Val) (valsNil : Bool) : List Nat → Nat →
     if vals.length > 0 then
       let step := (j - i) / d
       if step = 0 then
-        (if i < j then Dec.fail .diverge else Dec.fail .panicIndex)
+        -- `for ; i < j; i += 0`: the body `split(level+1, i, i, …)` runs first (it may panic); if it returns, the
+        -- loop appends its result forever
+        (if i < j then do
+           let _ ← splitM env vals valsNil (d' :: ds) i i
+           Dec.fail .diverge
+         else Dec.fail .panicIndex)
       else do
         request env ((j - i + step - 1) / step)
         let elems ← splitLoop (fun a b => splitM env vals valsNil (d' :: ds) a b) step (j - i) i j
